@@ -1,4 +1,4 @@
-import B2Z.Icf
+import B2Z.Model.Icf
 namespace B2Z
 
 theorem emitRest_eq (stop rid : Nat) (xs : List α) (h : rid ≤ stop) :
